@@ -465,6 +465,26 @@ def report(prop, mine, results, missing, seed, wall, args):
     assumptions.extend('assert isinstance(...) taken as assumption at %s' % a for a in sorted(assumed_asserts))
     assumptions.extend('executed natively on concrete arguments: %s' % a for a in sorted(native_calls))
     assumptions.append('integers are mathematical; no threads/signals/BaseException; termination only where a variant is given')
+    extra = {}
+    if _TIER == 'thorough' and not args.only:
+        # validation of the verifier itself (DESIGN 2.4): a failure here is a checker error
+        try:
+            from . import crosscheck, modelcheck
+            cc = crosscheck.run(prop, 25, seed)
+            extra['interpreter_crosscheck_against_cpython'] = {
+                'runs_compared': cc['compared'], 'failures': len(cc['failures']),
+                'functions_without_concrete_inputs': sorted(cc['skipped'])}
+            cases, mfail = modelcheck.run(3)
+            extra['string_model_crosscheck_against_cpython'] = {'cases': cases, 'failures': len(mfail)}
+            if cc['failures'] or mfail:
+                for f in (cc['failures'] + mfail)[:10]:
+                    print('CHECKER-ERROR: cross-check against CPython failed: %r' % (f,))
+                if exit_code == 0:
+                    exit_code = 3
+        except Exception:
+            print('CHECKER-ERROR: cross-check crashed\n' + traceback.format_exc())
+            if exit_code == 0:
+                exit_code = 3
     evidence = {
         'property_id': prop, 'tier': _TIER, 'seed': seed, 'level': 'proof',
         'coverage': {
@@ -480,6 +500,7 @@ def report(prop, mine, results, missing, seed, wall, args):
             'undecided': [list(u) for u in undecided],
             'samples': samples[:5] or [{'note': 'no SMT sample (all obligations by enumeration/scan)'}],
             'bounded_standins': bounded,
+            **extra,
         },
         'assumptions': assumptions,
         'wall_s': round(wall, 3),
